@@ -170,6 +170,9 @@ func Build(tier string) *Universe {
 	other := buildOther(sc)
 	misc := buildMisc(sc, other)
 	lvoid := buildLVoid(sc)
+	wide := buildWide(sc)
+	deps, alias := buildAlias(sc)
+	multiA, multiB := buildMulti(sc)
 	add("plain", plain)
 	add("ptr", ptr)
 	add("union", uni)
@@ -181,7 +184,16 @@ func Build(tier string) *Universe {
 	// the request nevertheless, as the compiler does)
 	add("misc", misc)
 	add("lvoid", lvoid)
-	u.Files = []*File{plain, ptr, uni, uptr, grp, sizes, other, misc, lvoid}
+	add("wide", wide)
+	// four requested files in four directories, two of them with the same
+	// Go package name, the others named like packages the generator imports
+	add("aliasdeps", deps...)
+	add("alias", alias)
+	// two schema files of one Go package
+	add("multi", multiA, multiB)
+	u.Files = []*File{plain, ptr, uni, uptr, grp, sizes, other, misc, lvoid, wide}
+	u.Files = append(u.Files, deps...)
+	u.Files = append(u.Files, alias, multiA, multiB)
 	for _, f := range u.Files {
 		if err := f.Validate(); err != nil {
 			panic(err)
@@ -634,4 +646,140 @@ func buildLVoid(sc Scope) *File {
 		u.Finish(0, 0)
 	}
 	return f
+}
+
+// ---- wide: offsets beyond 16 bits (byte offsets > 65535, 300 pointers)
+
+func buildWide(sc Scope) *File {
+	f := NewFile("c15wide")
+	env := newEnv(f)
+	s := f.Struct("Wide")
+	s.Add("b63", T(Bool), 63, DataDefault(Bool, DOnes))
+	s.Add("b64", T(Bool), 64, Default{})
+	s.Add("b65", T(Bool), 65, DataDefault(Bool, DOnes))
+	s.Add("b127", T(Bool), 127, Default{})
+	s.Add("f64mid", T(Float64), 4096, DataDefault(Float64, DPattern))
+	s.Add("e", RefTo(env.E), 32768, DataDefault(Enum, DOnes))
+	s.Add("i16mid", T(Int16), 32769, DataDefault(Int16, DSign))
+	s.Add("u64far", T(Uint64), 8998, DataDefault(Uint64, DOnes))
+	s.Add("u32far", T(Uint32), 17998, DataDefault(Uint32, DPattern))
+	s.Add("u16far", T(Uint16), 35998, DataDefault(Uint16, DSign))
+	s.Add("bfar", T(Bool), 575991, DataDefault(Bool, DOnes))
+	s.Add("u8far", T(Uint8), 71999, DataDefault(Uint8, DPattern))
+	s.Add("lfar", ListOf(T(Uint8)), 297, Default{})
+	s.Add("sfar", RefTo(env.T), 298, Default{})
+	s.Add("pfar", T(Text), 299, Default{Explicit: true, Text: "far"})
+	s.Finish(0, 0)
+	u := f.Struct("WideU")
+	u.DiscOffset = 35999
+	u.AddMember("a", T(Uint8), 71990, DataDefault(Uint8, DOnes))
+	u.AddMember("b", T(Bool), 575900, Default{})
+	u.AddMember("c", T(Text), 299, Default{})
+	u.AddMember("d", T(Int64), 8997, DataDefault(Int64, DSign))
+	u.AddMember("v", T(Void), 0, Default{})
+	u.Finish(0, 0)
+	return f
+}
+
+// ---- alias: imported packages whose names clash with each other and with
+// the packages the generated code itself imports
+
+func buildAlias(sc Scope) ([]*File, *File) {
+	var deps []*File
+	var structs, enums []*Node
+	for _, d := range []struct{ dir, pkg string }{
+		{"c15a/text", "text"}, {"c15b/text", "text"}, {"c15c/capnp", "capnp"}, {"c15d/math", "math"},
+		{"c15e/strconv", "strconv"}, {"c15f/schemas", "schemas"},
+	} {
+		f := NewFileIn(d.dir, d.pkg, d.pkg)
+		e := f.Enum("Kind", "k0", "k1", "k2")
+		x := f.Struct("Item")
+		x.Add("v", T(Float32), 0, DataDefault(Float32, DPattern))
+		x.Add("k", RefTo(e), 2, Default{Explicit: true, Bits: 2})
+		x.Add("name", T(Text), 0, Default{Explicit: true, Text: d.dir})
+		x.DiscOffset = 3
+		x.AddMember("left", T(Uint8), 8, Default{})
+		x.AddMember("right", T(Uint8), 8, DataDefault(Uint8, DOnes))
+		x.Finish(0, 0)
+		deps = append(deps, f)
+		structs = append(structs, x)
+		enums = append(enums, e)
+	}
+	f := NewFile("c15alias")
+	f.Imports = deps
+	a := f.Struct("UsesAll")
+	a.Add("f", T(Float64), 0, DataDefault(Float64, DPattern))
+	for i, x := range structs {
+		a.Add(fmt.Sprintf("s%d", i), RefTo(x), uint32(2*i), Default{})
+		a.Add(fmt.Sprintf("l%d", i), ListOf(RefTo(x)), uint32(2*i+1), Default{})
+		a.Add(fmt.Sprintf("e%d", i), RefTo(enums[i]), uint32(4+i), Default{Explicit: true, Bits: 1})
+	}
+	a.DiscOffset = 4 + uint32(len(structs))
+	a.AddMember("one", T(Void), 0, Default{})
+	a.AddMember("two", T(Bool), 200, Default{})
+	a.Finish(0, 0)
+	f.Const("cItem", RefTo(structs[1]), Default{HasPtr: true, StructWords: []uint64{3}, StructText: "ci"})
+	f.Const("cKind", RefTo(enums[2]), Default{Bits: 2})
+	return deps, f
+}
+
+// ---- multi: two schema files compiled into the same Go package
+
+func buildMulti(sc Scope) (*File, *File) {
+	a := NewFileIn("c15multi", "first", "c15multi")
+	b := NewFileIn("c15multi", "second", "c15multi")
+	b.Imports = []*File{a}
+	e := a.Enum("Shade", "dark", "light")
+	sa := a.Struct("First")
+	sa.Add("n", T(Int32), 0, DataDefault(Int32, DSign))
+	sa.Add("sh", RefTo(e), 2, Default{Explicit: true, Bits: 1})
+	sa.Add("t", T(Text), 0, Default{Explicit: true, Text: "one"})
+	sa.Finish(0, 0)
+	sb := b.Struct("Second")
+	sb.Add("f", RefTo(sa), 0, Default{Explicit: true, HasPtr: true, StructWords: []uint64{5}, StructText: "two"})
+	sb.Add("lf", ListOf(RefTo(sa)), 1, Default{})
+	sb.Add("sh", RefTo(e), 0, Default{})
+	sb.Add("lsh", ListOf(RefTo(e)), 2, Default{Explicit: true, HasPtr: true, Elems: []uint64{1, 0}})
+	sb.Add("d", T(Data), 3, Default{Explicit: true, Data: []byte{9}})
+	sb.Finish(0, 0)
+	return a, b
+}
+
+// Filter keeps the files for which keep returns true (nil: all), their
+// imports, and the requests all of whose requested files are kept.
+func (u *Universe) Filter(keep func(*File) bool) *Universe {
+	if keep == nil {
+		return u
+	}
+	in := map[*File]bool{}
+	var add func(f *File)
+	add = func(f *File) {
+		if !in[f] {
+			in[f] = true
+			for _, i := range f.Imports {
+				add(i)
+			}
+		}
+	}
+	for _, f := range u.Files {
+		if keep(f) {
+			add(f)
+		}
+	}
+	out := &Universe{}
+	for _, f := range u.Files {
+		if in[f] {
+			out.Files = append(out.Files, f)
+		}
+	}
+	for _, r := range u.Requests {
+		ok := true
+		for _, f := range r.Files {
+			ok = ok && in[f]
+		}
+		if ok {
+			out.Requests = append(out.Requests, r)
+		}
+	}
+	return out
 }
